@@ -100,6 +100,12 @@ func (f *faultLSP) hit(call string) bool {
 	f.mu.Lock()
 	defer f.mu.Unlock()
 	f.calls = append(f.calls, call)
+	if _, boom := f.fail["panic:"+call]; boom {
+		// the storage layer panics inside this call (a driver bug, a nil map ...): whoever called Update recovers, as net/http does per request
+		delete(f.fail, "panic:"+call)
+		f.fired = append(f.fired, "panic:"+call)
+		panic("verif: injected panic inside the storage call " + call)
+	}
 	n, ok := f.fail[call]
 	if !ok {
 		return false
@@ -148,7 +154,9 @@ func (r *faultRead) GetLatest() ([]byte, error) {
 	if r.f.hit("ReadGetLatest") {
 		return nil, r.f.readErr()
 	}
-	return r.inner.GetLatest()
+	b, err := r.inner.GetLatest()
+	r.f.maybeHold("ReadGetLatest>") // the read has its answer; its RETURN is what is held back
+	return b, err
 }
 
 type faultWrite struct {
